@@ -428,3 +428,57 @@ Proof.
       repeat (destruct H as [H|H]; [apply str_eqb_eq in H; vm_compute in H; discriminate|]); exact H|]).
     constructor.
 Qed.
+
+(* ---- a key given twice: the last line wins, the key keeps its place ---------------- *)
+Fixpoint dget {V} (d : list (str * V)) (k : str) : option V :=
+  match d with
+  | [] => None
+  | (k', v) :: r => if str_eqb k' k then Some v else dget r k
+  end.
+
+Lemma dget_dset_same {V} (d : list (str * V)) k v : dget (dset d k v) k = Some v.
+Proof.
+  induction d as [|[k' v'] d IH]; simpl.
+  - rewrite str_eqb_refl. reflexivity.
+  - destruct (str_eqb k' k) eqn:E; simpl; rewrite E; [reflexivity | exact IH].
+Qed.
+
+Lemma dget_dset_other {V} (d : list (str * V)) k v k2 : k2 <> k ->
+  dget (dset d k v) k2 = dget d k2.
+Proof.
+  intros Hne. induction d as [|[k' v'] d IH]; simpl.
+  - rewrite str_eqb_neq by (intros E; apply Hne; symmetry; exact E). reflexivity.
+  - destruct (str_eqb k' k) eqn:E; simpl.
+    + apply str_eqb_eq in E. subst k'.
+      rewrite str_eqb_neq by (intros F; apply Hne; symmetry; exact F). reflexivity.
+    + destruct (str_eqb k' k2); [reflexivity | exact IH].
+Qed.
+
+Lemma keys_dset {V} (d : list (str * V)) k v :
+  keys (dset d k v) = if existsb (str_eqb k) (keys d) then keys d else keys d ++ [k].
+Proof.
+  induction d as [|[k' v'] d IH]; simpl; [reflexivity|].
+  destruct (str_eqb k' k) eqn:E; simpl.
+  - apply str_eqb_eq in E. subst k'. rewrite str_eqb_refl. reflexivity.
+  - assert (E' : str_eqb k k' = false).
+    { destruct (str_eqb k k') eqn:F; [apply str_eqb_eq in F; subst; rewrite str_eqb_refl in E; discriminate | reflexivity]. }
+    rewrite E'. cbn [orb]. change (map fst (dset d k v)) with (keys (dset d k v)).
+    rewrite IH. change (map fst d) with (keys d).
+    destruct (existsb (str_eqb k) (keys d)); reflexivity.
+Qed.
+
+Lemma pass1_app lines more :
+  pass1 (lines ++ more) = fold_left pass1_line more (pass1 lines).
+Proof. unfold pass1. apply fold_left_app. Qed.
+
+Theorem legacy_last_wins lines d k t : clean k -> noeq k -> clean t ->
+  pass1 lines = Ok d ->
+  exists d', pass1 (lines ++ [render_line k t]) = Ok d' /\
+    dget d' k = Some (seg_tr k t) /\ (forall k2, k2 <> k -> dget d' k2 = dget d k2) /\
+    keys d' = if existsb (str_eqb k) (keys d) then keys d else keys d ++ [k].
+Proof.
+  intros Hk Hn Ht Hd. exists (dset d k (seg_tr k t)).
+  rewrite pass1_app, Hd. cbn [fold_left]. rewrite (pass1_line_render d k t Hk Hn Ht).
+  split; [reflexivity|]. split; [apply dget_dset_same|].
+  split; [intros k2 Hne; apply dget_dset_other; exact Hne | apply keys_dset].
+Qed.
